@@ -174,6 +174,13 @@ def check(prop, tier, seed, njobs):
             s.close()
 
 
+VITAL = {
+    'worlds.pipe': ['handed', 'reply_judged'],
+    'worlds.fsm': ['handed', 'reply_judged'],
+    'worlds.disk': ['handed', 'reply_judged'],
+}
+
+
 def finish(prop, tier, seed, P, jobs, results, servers, t0):
     known = load_known()
     agg = collections.Counter()
@@ -186,6 +193,7 @@ def finish(prop, tier, seed, P, jobs, results, servers, t0):
     others = collections.Counter()
     samples = []
     per_batch = collections.Counter()
+    probes_b = collections.defaultdict(collections.Counter)
     for j, r in zip(jobs, results):
         if r is None or r.get('skipped'):
             agg['skipped'] += 1
@@ -198,6 +206,8 @@ def finish(prop, tier, seed, P, jobs, results, servers, t0):
         agg['steps'] += r.get('steps', 0)
         agg['vtime'] += r.get('vtime', 0)
         probes.update(r.get('probes') or {})
+        probes_b[j['batch']].update(r.get('probes') or {})
+        probes_b[j['batch']]['_nontrivial'] += bool(r.get('nontrivial'))
         faults.update(r.get('faults') or {})
         kinds.update(r.get('kinds') or {})
         digests.add(r.get('digest'))
@@ -278,13 +288,27 @@ def finish(prop, tier, seed, P, jobs, results, servers, t0):
     if agg['runs'] == 0:
         rc = 2
     warn = [p for p in P.get('probes', []) if probes.get(p, 0) == 0]
+    # vitality: a batch whose runs never reached the behaviour it exists for proves nothing - that is a harness
+    # error (exit 2), never a silent pass
+    vital = {}
+    for b, n in per_batch.items():
+        spec = P['batches'][b]
+        need = spec.get('require')
+        if need is None:
+            need = VITAL.get(spec['world'], [])
+        need = ['_nontrivial'] + list(need)
+        dead = [q for q in need if probes_b[b].get(q, 0) == 0]
+        vital[spec.get('name', str(b))] = dict(required=need, at_zero=dead, runs=n)
+        if dead and n >= 40:
+            rc = 2 if rc == 0 else rc
+            out_lines.append(f'HARNESS-ERROR batch={spec.get("name", b)}: {n} runs never reached {dead} - the batch is vacuous')
     ev = dict(
         property_id=prop, tier=tier, seed=seed, level=P['level'], wall_s=round(wall, 2), violations=nviol,
         coverage=dict(
             evaluations=agg['runs'], distinct_nontrivial=len(nontrivial), rule=P['rule'], samples=samples or [{'note': 'no nontrivial run'}],
             distinct_event_logs=len(digests), runs_per_hour=int(agg['runs'] / max(wall, 1e-6) * 3600),
             simulated_seconds=round(agg['vtime'], 1), steps=agg['steps'], step_kinds=dict(kinds),
-            faults_fired=dict(faults), probes=dict(probes), probes_at_zero=warn,
+            faults_fired=dict(faults), probes=dict(probes), probes_at_zero=warn, vitality=vital,
             runs_per_batch={P['batches'][b].get('name', str(b)): n for b, n in per_batch.items()},
             skipped_for_wall_budget=agg['skipped'], harness_errors=len(harness_errors),
             other_property_violations_seen=dict(others), components=P.get('components', {}),
